@@ -8,13 +8,29 @@ ASSUMPTIONS = []
 OPS = ('require', 'size', 'end', 'empty', 'bump', 'bump_in_this_line', 'bump_to_next_line', 'discard', 'rewind')
 REQ = '_ZN3tao5pegtl12buffer_inputI7vreaderNS0_5ascii3eol7lf_crlfEPKcLm%dEE7requireEm.0'
 
+# leaf rules run on buffer_input and on memory_input; need = largest look-ahead (bytes from where the rule starts) the rule may ask for
+RULES = [
+    dict(name='any', cxx='any', need=1),
+    dict(name='one', cxx="one< 'a' >", need=1),
+    dict(name='range', cxx="range< 'a', 'c' >", need=1),
+    dict(name='string', cxx="string< 'a', 'b', 'c' >", need=3),
+    dict(name='istring', cxx="istring< 'a', 'b' >", need=2),
+    dict(name='utf8_any', cxx='utf8::any', need=4),
+    dict(name='eof', cxx='eof', need=1, flags=['C07_NO_SHORT']),
+    dict(name='eol', cxx='eol', need=2),
+    dict(name='eolf', cxx='eolf', need=2),
+    dict(name='bytes2', cxx='bytes< 2 >', need=2),
+    dict(name='rep_min_max', cxx="rep_min_max< 1, 3, one< 'a' > >", need=4),
+    dict(name='must', cxx="seq< A1, must< B1 > >", need=2),
+]
+
 
 def plan(ctx):
     qs = []
     cpp = os.path.join(vf.VERIF, 'harness', 'c07.cpp')
     h = os.path.join(vf.VERIF, 'harness', 'c07.c')
     shape = {'NSETUP': 3, 'SETUP_SHAPE': '{0,1,3}', 'SETUP_ONE_READ': 1}
-    for chunk, maxima in ((1, (2,)), (2, (2,)), (4, (1,))):
+    for chunk, maxima in ((1, (2,)), (2, (2,)), (4, (2,))):
         unit = ctx.unit('c07_ops_c%d' % chunk, cpp=cpp, cxxflags=['-DCHUNK=%d' % chunk])
         for mx in maxima:
             cap = mx + chunk
@@ -23,4 +39,14 @@ def plan(ctx):
                 qs.append(vf.Query('op/chunk%d/max%d/%s' % (chunk, mx, op), unit, h, defines=dict(shape, CHUNK=chunk, LMAX=LMAX, MAXMAX=mx),
                                    cbmc_defines={'VF_SPLIT': 1, 'C07_OP': i, 'MAXIMUM': mx}, unwind=LMAX + 2,
                                    unwindset=[(REQ % chunk) + ':%d' % (cap + 1)], mem_gb=3))
+    for chunk, mx in ((2, 2),):
+        cap = mx + chunk
+        LMAX = cap + 1
+        for r in RULES:
+            unit = ctx.unit('c07_rule_%s_c%d' % (r['name'], chunk), cpp=cpp, cxxflags=['-DCHUNK=%d' % chunk, '-DC07_RULE=' + r['cxx']] + ['-D' + f for f in r.get('cxxflags', [])])
+            d = dict(shape, CHUNK=chunk, LMAX=LMAX, MAXMAX=mx, C07_RULE_MODE=1, C07_OVERFLOW_OK='(s0.c+%d>M_)' % r['need'])
+            for f in r.get('flags', []):
+                d[f] = 1
+            qs.append(vf.Query('rule/chunk%d/max%d/%s' % (chunk, mx, r['name']), unit, h, defines=d, cbmc_defines={'MAXIMUM': mx}, unwind=LMAX + 2,
+                               unwindset=[(REQ % chunk) + ':%d' % (cap + 1)], mem_gb=3))
     return qs
